@@ -38,6 +38,24 @@ ExactFor(fold, fs, n) ==
 \* ... and the stored names themselves must not collide up to case
 Unambiguous(fold, fs) == \A f \in fs : ExactFor(fold, fs, f.n)
 
+(* ---- the text of a folder / name as handed to a backend ------------------------ *)
+BSl == "\\"
+\* segments between separators of either kind ("" -> <<"">>)
+RECURSIVE SplitAcc(_, _, _, _)
+SplitAcc(s, k, cur, acc) ==
+    IF k > Len(s) THEN Append(acc, cur)
+    ELSE LET ch == SubSeq(s, k, k) IN
+         IF ch = "/" \/ ch = BSl THEN SplitAcc(s, k + 1, "", Append(acc, cur))
+         ELSE SplitAcc(s, k + 1, cur \o ch, acc)
+Segs(s) == SplitAcc(s, 1, "", <<>>)
+IsName(c) == c # "" /\ c # "."
+\* the components a text denotes: empty segments (doubled or trailing separators) and "." vanish
+TextComps(s) == SelectSeq(Segs(s), IsName)
+\* canonical text: nothing to drop, except one trailing separator
+Canonical(s) == LET g == Segs(s) IN
+    /\ \A k \in 1..(Len(g) - 1) : IsName(g[k])
+    /\ g[Len(g)] # "."
+
 (* ---- chains ----------------------------------------------------------------- *)
 \* chain = sequence of members [fs, pfx]; earlier members have priority
 AddSys(chain, m, priority) == IF priority THEN <<m>> \o chain ELSE Append(chain, m)
